@@ -25,7 +25,7 @@ def C(level, technique, text, note, ref):
 
 CLAIMS.update({
  "C03": C("model_checking", "TLA+ reference semantics WfState (named axes, natural join) evaluated by TLC per workflow record; every node output of the real workflow compared; recorded findings matched on as-built class + prediction",
-          "Workflow records (all 1-2 node workflows in thorough, seeded 3-4 node samples, diamond and triangle families, nested-workflow nodes, splits over upstream outputs, list-maker and zero-job nodes) are evaluated by TLC with the nested-loop reference; each is materialised as source text and run for real; every node's output must equal TLC's symbolic term (pairing, order, loss, duplication).",
+          "Workflow records (all 1-2 node workflows in thorough, seeded 3-4 node samples, diamond, triangle and three-input families, nested-workflow nodes, splits over upstream outputs, list-maker and zero-job nodes) are evaluated by TLC with the nested-loop reference; each is materialised as source text and run for real; every node's output must equal TLC's symbolic term (pairing, order, loss, duplication).",
           "Trusted: TLC, WfState.tla, JSON bridge, generated source. Not replayed: records TLC flags as ragged/unsplittable upstream values or zero jobs under a partial combiner. Four recorded known-finding classes are matched only on class + as-built observation.", "6/C03"),
  "C06": C("model_checking", "Identity.tla (relational cache-identity spec): TLC-enumerated submission histories replayed on pydra, events validated by TLC (M4)",
           "TLC enumerates every 4-submission history over task pairs differing in one of 13 aspects; each history is executed in a fresh cache root and the (key, hit, output) events are validated against Identity!Submit (a hit only after an equal semantic key; outputs equal a fresh execution).",
@@ -40,7 +40,7 @@ CLAIMS.update({
           "M1 on the three key modes; every behaviour of <=3 (quick) / <=4 (+2000 simulated length 5, thorough) file operations replayed with os.utime-controlled mtimes and a private persistent hash cache; directory projection compared after each step, each digest compared with a cold-cache digest.",
           "mtimes are set explicitly (file-system resolution not exercised). Known finding C09-mtime-key matched only when the digest equals the as-built model's prediction.", "6/C09"),
  "C10": C("model_checking", "JobProtocol.tla: TLC exhaustive interleavings (M1); TLC behaviours forced on real processes through gated hook points (M3); hook traces validated by TLC (M4); lock core proved for any number of processes with TLAPS (LockCore.tla) and linked to JobProtocol by a TLC-checked refinement",
-          "3 processes x every interleaving in the model; mutual exclusion / one body / no partial output proved inductive for an arbitrary process set; complete 2-process behaviours (exhaustive) and simulated 3-process behaviours replayed on forked real processes calling task(cache_root=shared); adversarial free-running races; every trace checked action by action incl. logged file-system state; end state: one body execution, identical outputs.",
+          "3 processes x every interleaving in the model; mutual exclusion / one body / no partial output proved inductive for an arbitrary process set; two submitters of one slow workflow under the cf worker (asynchronous job lock with growing poll interval); complete 2-process behaviours (exhaustive) and simulated 3-process behaviours replayed on forked real processes calling task(cache_root=shared); adversarial free-running races; every trace checked action by action incl. logged file-system state; end state: one body execution, identical outputs.",
           "Trusted: TLC, hook placement (Appendix A), normalisation of the hook log, SoftFileLock mutual exclusion on a local FS.", "6/C10"),
  "C11": C("model_checking", "JobProtocol.tla (read-only caches, leftovers, rerun) + RerunProp.tla; TLC histories executed for real; traces validated by TLC",
           "M1 with two read-only caches, leftover directories and rerun flags; every one-process 3-submission history and simulated 2-process histories executed; body counts equal the behaviour's BodyStart steps; read-only caches byte-identical; workflow histories over (rerun, propagate_rerun) compared with RerunProp.",
@@ -49,8 +49,8 @@ CLAIMS.update({
           "One kill per hook point on the execution path (ok / raising body; thorough: rerun over a result, double crash), two resubmissions each must return the correct result in time; M4 validation incl. StaleBreak; load_result on every prefix of a real _result.pklz.",
           "Assumes filelock>=3.13 stale-lock breaking on the same host (verified on each run). Time-outs are retried once alone with 4x the bound before being reported.", "6/C12"),
  "C13": C("model_checking", "JobProtocol.tla with body outcomes {ok, raise, collect-failure}: M1 + every 3-submission history executed (python, two-output python, workflow) + M4",
-          "ErrNeverServed, RaiseIsReported, ErrorRecorded in the model; per history: statuses, body counts and error text must match the behaviour; traces validated.",
-          "Same identity made to succeed later through a side file (not part of the cache identity).", "6/C13"),
+          "ErrNeverServed, RaiseIsReported, ErrorRecorded in the model; per history: statuses, body counts and error text must match the behaviour; traces validated. Failure histories [fail, cause removed, resubmit, resubmit] for shell commands (exit 1, exit 3, SIGKILL, SIGTERM) and for a workflow with a failing node under max_concurrent 0/1/2 and the debug/cf workers: failed, executed again, then served from the cache.",
+          "Same identity made to succeed later through a side file (not part of the cache identity). Known finding C13-heldback-node-stale-error matched on class + the two recorded status/execution signatures.", "6/C13"),
  "C14": C("model_checking", "Submitter.tla (expansion loop + worker pool) M1 over DAGs x failing subsets; TLC schedules forced on a real cf Submitter with token-gated bodies; traces validated by TLC",
           "IndependentJobsRun, DependentsNeverRun, ErrorNamesEveryFailedJob, FailureIsReported, NeverCrashes for every interleaving of worker progress and scans; sampled schedules replayed (bodies released/failed in order, waiting for the loop's scan in between).",
           "Scan is modelled atomically; launch order within a pass is not controlled.", "6/C14"),
